@@ -120,7 +120,11 @@ func registerTime(reg func(string, intercept), nop intercept) {
 	reg("(time.Duration).Milliseconds", func(e *Engine, fr *frame, a []Value) Value {
 		return e.tb.Bin(OpSDiv, a[0].(*Term), e.tb.Const(64, 1000000))
 	})
+	var sleepExact func(e *Engine, d *Term) bool
 	reg("time.Sleep", func(e *Engine, fr *frame, a []Value) Value {
+		if sleepExact != nil && sleepExact(e, a[0].(*Term)) {
+			return nil
+		}
 		if !e.clockPinned {
 			// the clock advances by at least d
 			if e.now == nil {
@@ -147,6 +151,21 @@ func registerTime(reg func(string, intercept), nop intercept) {
 		}
 		e.timers = append(e.timers, c)
 		return c
+	}
+	// exact clock: Sleep(d) parks the thread until the clock has reached now+d (other threads
+	// run meanwhile; when everything is blocked the clock jumps, see advanceIdle)
+	sleepExact = func(e *Engine, d *Term) bool {
+		if !e.clockPinned || e.now == nil || !e.subst(e.now).IsConst() || !e.subst(d).IsConst() {
+			return false
+		}
+		if sext64(e.subst(d).C, 64) <= 0 {
+			e.Yield()
+			return true
+		}
+		c := mkTimerChan(e, e.subst(d), false)
+		e.Block(func() bool { return e.timerReady(c) }, "time.Sleep")
+		c.Timer = false
+		return true
 	}
 	reg("time.After time.Tick", func(e *Engine, fr *frame, a []Value) Value {
 		return mkTimerChan(e, a[0].(*Term), fr.fn.Name() == "Tick")
